@@ -261,6 +261,8 @@ func runGlue(r *Rng, st *Stats, n int, tier string) {
 	// first: nothing else has been built in this process yet
 	runInterference(r, st, tmp, tier)
 
+	runRelocation(r, st, tmp, tier)
+
 	runOptionScenarios(st, tmp, 40)
 
 	nProj := n / 60
